@@ -421,4 +421,280 @@ theorem walk_up_history {h : Hist} {o : LoadOpts} {m : LMap} (hl : load h o = .o
     pathN_reverse (fun a b hb => ((nextrev_iff m L.ids_nodup a b).mp hb).2) n s r hp
   exact (stepsDown_iff h n r s).mpr (pathN_congr (fun i => downOf_eq_downParents hl hu i) n r s hrev)
 
+
+/-! ### relative upgrade targets: where the count starts and where it ends -/
+
+theorem walk_go_pos (m : LMap) (rel : Int) (hpos : rel > 0) (label : Option String) (b : Bool) :
+    ∀ (n : Nat) (c : Option Id) (mk : Bool), walk.go m rel label b n c mk = walk.go m (1 : Int) label b n c mk := by
+  intro n
+  induction n with
+  | zero => intro c mk; simp [walk.go]
+  | succ k ih =>
+    intro c mk
+    simp only [walk.go]
+    have h1 : decide (rel > 0) = true := by simpa using hpos
+    have h2 : decide ((1 : Int) > 0) = true := by decide
+    simp only [h1, h2, ih]
+
+theorem walk_go_neg (m : LMap) (rel : Int) (hneg : ¬ rel > 0) (label : Option String) (b : Bool) :
+    ∀ (n : Nat) (c : Option Id) (mk : Bool), walk.go m rel label b n c mk = walk.go m (-1 : Int) label b n c mk := by
+  intro n
+  induction n with
+  | zero => intro c mk; simp [walk.go]
+  | succ k ih =>
+    intro c mk
+    simp only [walk.go]
+    have h1 : decide (rel > 0) = false := by simpa using hneg
+    have h2 : decide ((-1 : Int) > 0) = false := by decide
+    simp only [h1, h2, ih]
+
+/-- the result of the upward walk inside `_parse_upgrade_target`, as the three cases of its `match` -/
+theorem up_result {w : Option (Option Id)} {i : Id}
+    (h : (match w with
+          | none => (throw Err.revisionError : Except Err (List Id))
+          | some none => throw Err.assertion
+          | some (some x) => pure [x]) = .ok [i]) : w = some (some i) := by
+  match w, h with
+  | some (some x), h =>
+    simp only [pure, Except.pure, Except.ok.injEq, List.cons.injEq, and_true] at h
+    rw [h]
+  | some none, h => simp [throw, throwThe, MonadExceptOf.throw] at h
+  | none, h => simp [throw, throwThe, MonadExceptOf.throw] at h
+
+/-- **`rev+N` names the revision exactly `N` links above `rev`**: for every loaded history, every
+target string the relative-identifier pattern splits into (no label, `rev`, `+N`) with `rev` a full
+revision id, whatever the current rows: if `_parse_upgrade_target` answers a revision, exactly `N`
+`down_revision` links, as written in the revision files, lead from it down to `rev`. -/
+theorem rel_up_id {h : Hist} {o : LoadOpts} {m : LMap} (hl : load h o = .ok m)
+    (hu : (h.map (·.id)).Nodup) (hd : ∀ r ∈ h, ∀ d ∈ r.down, d ∈ h.map (·.id))
+    (rows : List Id) (t : String) (sym : Id) (rel : Int) (i : Id)
+    (hm : matchRelative t = some (none, some sym, rel)) (hpos : rel > 0)
+    (hs : sym ∈ m.ids) (hp : Plain sym)
+    (hres : parseUpgradeTarget m rows t = .ok [i]) :
+    stepsDown h rel.natAbs i (some sym) = true := by
+  unfold parseUpgradeTarget at hres
+  simp only [hm, hpos, if_true, bind, Except.bind, (full_id m sym hs hp).2] at hres
+  unfold walk at hres
+  rw [walk_go_pos m rel hpos] at hres
+  cases hw : walk.go m (1 : Int) none true rel.natAbs (some sym) false with
+  | error e => simp [hw] at hres
+  | ok w =>
+    simp only [hw] at hres
+    match w, hres with
+    | some (some x), hres =>
+      simp only [pure, Except.pure, Except.ok.injEq, List.cons.injEq, and_true] at hres
+      subst hres
+      exact walk_up_history hl hu hd none rel.natAbs sym x hw
+    | some none, hres => simp [throw, throwThe, MonadExceptOf.throw] at hres
+    | none, hres => simp [throw, throwThe, MonadExceptOf.throw] at hres
+
+/-- **`+N` counts from the single current row**: with one row `r` in the version table, the
+target `+N` (no label, no revision) answers a revision exactly `N` `down_revision` links above `r`. -/
+theorem rel_up_row {h : Hist} {o : LoadOpts} {m : LMap} (hl : load h o = .ok m)
+    (hu : (h.map (·.id)).Nodup) (hd : ∀ r ∈ h, ∀ d ∈ r.down, d ∈ h.map (·.id))
+    (r : Id) (t : String) (rel : Int) (i : Id)
+    (hm : matchRelative t = some (none, none, rel)) (hpos : rel > 0)
+    (hr : r ∈ m.ids) (hp : Plain r)
+    (hres : parseUpgradeTarget m [r] t = .ok [i]) :
+    stepsDown h rel.natAbs i (some r) = true := by
+  unfold parseUpgradeTarget at hres
+  simp only [hm, hpos, if_true, bind, Except.bind, (full_id m r hr hp).2, pure, Except.pure] at hres
+  unfold walk at hres
+  rw [walk_go_pos m rel hpos] at hres
+  cases hw : walk.go m (1 : Int) none true rel.natAbs (some r) false with
+  | error e => simp [hw] at hres
+  | ok w =>
+    simp only [hw] at hres
+    have := up_result hres
+    subst this
+    exact walk_up_history hl hu hd none rel.natAbs r i hw
+
+/-- **`rev-N` as an upgrade target names the revision exactly `N` links below `rev`** -/
+theorem rel_down_id {h : Hist} {o : LoadOpts} {m : LMap} (hl : load h o = .ok m)
+    (hu : (h.map (·.id)).Nodup)
+    (rows : List Id) (t : String) (sym : Id) (rel : Int) (i : Id)
+    (hm : matchRelative t = some (none, some sym, rel)) (hneg : ¬ rel > 0)
+    (hs : sym ∈ m.ids) (hp : Plain sym)
+    (hres : parseUpgradeTarget m rows t = .ok [i]) :
+    stepsDown h rel.natAbs sym (some i) = true := by
+  unfold parseUpgradeTarget at hres
+  simp only [hm, hneg, if_false, bind, Except.bind, (full_id m sym hs hp).2] at hres
+  unfold walk at hres
+  rw [walk_go_neg m rel hneg] at hres
+  cases hw : walk.go m (-1 : Int) none true rel.natAbs (some sym) false with
+  | error e => simp [hw] at hres
+  | ok w =>
+    simp only [hw] at hres
+    match w, hres with
+    | some (some x), hres =>
+      simp only [pure, Except.pure, Except.ok.injEq, List.cons.injEq, and_true] at hres
+      subst hres
+      exact walk_down_history hl hu none rel.natAbs sym x hw
+    | some none, hres => simp [throw, throwThe, MonadExceptOf.throw] at hres
+    | none, hres => simp [throw, throwThe, MonadExceptOf.throw] at hres
+
+/-- the hypotheses are met by the ordinary spellings (the pattern is the model of
+    `_relative_destination`) -/
+example : matchRelative "ab12+2" = some (none, some "ab12", 2) ∧ matchRelative "+3" = some (none, none, 3) ∧
+    matchRelative "ab12-1" = some (none, some "ab12", -1) := by decide +kernel
+
+
+/-! ### relative downgrade targets -/
+
+/-- **What a `true` verdict of the distance oracle means for base**: `r` is `n - 1` links above a
+revision without `down_revision` (so that `n` steps down end exactly at base). -/
+theorem stepsDown_base_iff (h : Hist) : ∀ (n : Nat) (r : Id),
+    stepsDown h (n + 1) r none = true ↔ ∃ root, PathN (downParents h) n r root ∧ downParents h root = [] := by
+  intro n
+  induction n with
+  | zero =>
+    intro r
+    simp only [stepsDown, PathN]
+    constructor
+    · intro hh
+      simp only [Bool.or_eq_true, Bool.and_eq_true, List.isEmpty_iff, List.any_eq_true] at hh
+      rcases hh with ⟨_, he⟩ | ⟨p, _, hp⟩
+      · exact ⟨r, rfl, he⟩
+      · simp at hp
+    · rintro ⟨root, rfl, he⟩
+      simp [he]
+  | succ k ih =>
+    intro r
+    simp only [stepsDown, PathN]
+    constructor
+    · intro hh
+      simp only [Bool.or_eq_true, Bool.and_eq_true, List.any_eq_true] at hh
+      rcases hh with ⟨hk, _⟩ | ⟨p, hp, hs⟩
+      · simp at hk
+      · have : stepsDown h (k + 1) p none = true := by simpa [stepsDown] using hs
+        obtain ⟨root, hpr, he⟩ := (ih p).mp this
+        exact ⟨root, ⟨p, hp, hpr⟩, he⟩
+    · rintro ⟨root, ⟨p, hp, hpr⟩, he⟩
+      have := (ih p).mpr ⟨root, hpr, he⟩
+      simp only [Bool.or_eq_true, Bool.and_eq_true, List.any_eq_true]
+      exact Or.inr ⟨p, hp, by simpa [stepsDown] using this⟩
+
+/-- **`rev-N` as a downgrade target**: for every loaded history and every target string the
+relative-identifier pattern splits into (no label, `rev`, `-N`) with `rev` a full revision id: the
+answer of `_parse_downgrade_target` is the revision exactly `N` `down_revision` links below
+`rev`, or base when `rev` is `N - 1` links above a revision without `down_revision`; the branch
+restriction stays empty. -/
+theorem rel_dgrade_id {h : Hist} {o : LoadOpts} {m : LMap} (hl : load h o = .ok m)
+    (hu : (h.map (·.id)).Nodup)
+    (rows : List Id) (t : String) (sym : Id) (rel : Int) (b : Option String) (tgt : Option Id)
+    (hm : matchRelative t = some (none, some sym, rel)) (hneg : rel < 0)
+    (hs : sym ∈ m.ids) (hp : Plain sym)
+    (hres : parseDowngradeTarget m rows t = .ok (b, tgt)) :
+    b = none ∧ stepsDown h rel.natAbs sym tgt = true := by
+  unfold parseDowngradeTarget at hres
+  have h0 : ¬ rel ≥ 0 := by omega
+  simp only [hm, h0, if_false, bind, Except.bind, pure, Except.pure, (full_id m sym hs hp).2] at hres
+  unfold walk at hres
+  rw [walk_go_neg m rel (by omega)] at hres
+  cases hw : walk.go m (-1 : Int) none true rel.natAbs (some sym) false with
+  | error e => simp [hw] at hres
+  | ok w =>
+    simp only [hw] at hres
+    match w, hres with
+    | none, hres => simp [throw, throwThe, MonadExceptOf.throw] at hres
+    | some r, hres =>
+      simp only [Except.ok.injEq, Prod.mk.injEq] at hres
+      obtain ⟨hb, ht⟩ := hres
+      subst hb; subst ht
+      refine ⟨rfl, ?_⟩
+      cases r with
+      | some x => exact walk_down_history hl hu none rel.natAbs sym x hw
+      | none =>
+        obtain ⟨root, hn, hpth, hroot⟩ := walk_down_exact m none rel.natAbs sym none hw
+        obtain ⟨k, hk⟩ : ∃ k, rel.natAbs = k + 1 := ⟨rel.natAbs - 1, by omega⟩
+        rw [hk] at hpth ⊢
+        refine (stepsDown_base_iff h k sym).mpr ⟨root, ?_, ?_⟩
+        · exact pathN_congr (fun i => downOf_eq_downParents hl hu i) k sym root (by simpa using hpth)
+        · rw [← downOf_eq_downParents hl hu root]; exact hroot
+
+
+theorem span_loop_stop {α} (p : α → Bool) : ∀ (l acc : List α) (x : α) (rest : List α), (∀ c ∈ l, p c = true) → p x = false →
+    List.span.loop p (l ++ x :: rest) acc = (acc.reverse ++ l, x :: rest)
+  | [], acc, x, rest, _, hx => by simp [List.span.loop, hx]
+  | a :: r, acc, x, rest, h, hx => by
+    have ha : p a = true := h a List.mem_cons_self
+    simp only [List.cons_append, List.span.loop, ha]
+    rw [span_loop_stop p r (a :: acc) x rest (fun c hc => h c (List.mem_cons_of_mem _ hc)) hx]
+    simp
+
+/-- `"<b>@<x>".split("@", 1)` when `b` has no `@` -/
+theorem splitFirstAt_at (b x : String) (hb : '@' ∉ b.toList) : splitFirstAt (b ++ "@" ++ x) = (some b, x) := by
+  unfold splitFirstAt
+  have e : (b ++ "@" ++ x).toList = b.toList ++ '@' :: x.toList := by simp [String.toList_append]
+  have : (b ++ "@" ++ x).toList.span (· != '@') = (b.toList, '@' :: x.toList) := by
+    rw [e]
+    unfold List.span
+    rw [span_loop_stop _ b.toList [] '@' x.toList (by intro c hc; simp; intro e; subst e; exact hb hc) (by simp)]
+    simp
+  rw [this]
+  simp
+
+/-- **`<id>@<id>` is that revision** (the form `_parse_downgrade_target` builds for a bare `-N`
+from the first current row) -/
+theorem self_qualified (m : LMap) (r : Id) (hr : r ∈ m.ids) (hp : Plain r) :
+    getRevision m (r ++ "@" ++ r) = .ok (some r) := by
+  unfold getRevision resolveFuel
+  have hsplit := splitFirstAt_at r r hp.1
+  have hres : resolveRevisionNumber m 12 (r ++ "@" ++ r) = .ok ([r], some r) := by
+    unfold resolveRevisionNumber
+    simp only [hsplit, bind, Except.bind, pure, Except.pure]
+    simp [hp.2.1, hp.2.2.1, hp.2.2.2.1]
+  simp only [hres, bind, Except.bind]
+  unfold revisionForIdent
+  have hshare : sharesLineage m r [r] false = true := by
+    unfold sharesLineage
+    have : r ∈ m.ancestorsNoDeps [r] := (mem_ancestorsNoDeps_iff m [r] r).mpr ⟨r, by simp, Reach.refl r⟩
+    simp [this]
+  by_cases he : r.isEmpty
+  · simp [he, lookup_id m r hr, bind, Except.bind, pure, Except.pure]
+  · have hb : resolveBranch m 11 r = .ok (some r) := by
+      unfold resolveBranch; simp [lookup_id m r hr]
+    simp [he, hb, lookup_id m r hr, hshare, bind, Except.bind, pure, Except.pure]
+
+
+/-- **A bare `-N` counts from the first current row and stays on its branch**: for every loaded
+history and every target string the pattern splits into (no label, no revision, `-N`), with the
+first row `r` of the version table a full revision id: the answer of `_parse_downgrade_target` is
+restricted to the branch of `r`, and names the revision exactly `N` `down_revision` links below
+`r` (base when `r` is `N - 1` links above a revision without `down_revision`). -/
+theorem rel_dgrade_row {h : Hist} {o : LoadOpts} {m : LMap} (hl : load h o = .ok m)
+    (hu : (h.map (·.id)).Nodup)
+    (r : Id) (rows : List Id) (t : String) (rel : Int) (b : Option String) (tgt : Option Id)
+    (hm : matchRelative t = some (none, none, rel)) (hneg : rel < 0)
+    (hr : r ∈ m.ids) (hp : Plain r)
+    (hres : parseDowngradeTarget m (r :: rows) t = .ok (b, tgt)) :
+    b = some r ∧ stepsDown h rel.natAbs r tgt = true := by
+  unfold parseDowngradeTarget at hres
+  have h0 : ¬ rel ≥ 0 := by omega
+  simp only [hm, h0, if_false, bind, Except.bind, pure, Except.pure, self_qualified m r hr hp] at hres
+  unfold walk at hres
+  rw [walk_go_neg m rel (by omega)] at hres
+  cases hw : walk.go m (-1 : Int) none true rel.natAbs (some r) false with
+  | error e => simp [hw] at hres
+  | ok w =>
+    simp only [hw] at hres
+    match w, hres with
+    | none, hres => simp [throw, throwThe, MonadExceptOf.throw] at hres
+    | some x, hres =>
+      simp only [Except.ok.injEq, Prod.mk.injEq] at hres
+      obtain ⟨hb, ht⟩ := hres
+      subst hb; subst ht
+      refine ⟨rfl, ?_⟩
+      cases x with
+      | some x => exact walk_down_history hl hu none rel.natAbs r x hw
+      | none =>
+        obtain ⟨root, hn, hpth, hroot⟩ := walk_down_exact m none rel.natAbs r none hw
+        obtain ⟨k, hk⟩ : ∃ k, rel.natAbs = k + 1 := ⟨rel.natAbs - 1, by omega⟩
+        rw [hk] at hpth ⊢
+        refine (stepsDown_base_iff h k r).mpr ⟨root, ?_, ?_⟩
+        · exact pathN_congr (fun i => downOf_eq_downParents hl hu i) k r root (by simpa using hpth)
+        · rw [← downOf_eq_downParents hl hu root]; exact hroot
+
+example : matchRelative "-2" = some (none, none, -2) ∧ matchRelative "ab12-3" = some (none, some "ab12", -3) := by decide +kernel
+
 end C16
